@@ -257,3 +257,41 @@ func EventsString(evs []abci.Event) string {
 	}
 	return sb.String()
 }
+
+// CosmosTxAdv builds a Cosmos tx declaring `declared` as signer (pubkey + address in signer info) but signed with
+// signerKey's private key over the sign doc for chainID — used for adversarial encodings.
+func (w *World) CosmosTxAdv(declared, signerKey *Acct, accNum, seq uint64, gas uint64, fee *big.Int, chainID string, msgs ...sdk.Msg) []byte {
+	b := w.Enc.TxConfig.NewTxBuilder()
+	b.SetGasLimit(gas)
+	b.SetFeeAmount(sdk.NewCoins(sdk.NewCoin(Denom, sdkmath.NewIntFromBigInt(fee))))
+	if err := b.SetMsgs(msgs...); err != nil {
+		panic(err)
+	}
+	txCfg := w.Enc.TxConfig
+	signMode, err := authsigning.APISignModeToInternal(txCfg.SignModeHandler().DefaultMode())
+	if err != nil {
+		panic(err)
+	}
+	sig := signing.SignatureV2{PubKey: declared.Priv.PubKey(), Data: &signing.SingleSignatureData{SignMode: signMode}, Sequence: seq}
+	if err := b.SetSignatures(sig); err != nil {
+		panic(err)
+	}
+	sd := authsigning.SignerData{ChainID: chainID, AccountNumber: accNum, Sequence: seq, PubKey: declared.Priv.PubKey(), Address: declared.Bech()}
+	bytesToSign, err := authsigning.GetSignBytesAdapter(context.Background(), txCfg.SignModeHandler(), signMode, sd, b.GetTx())
+	if err != nil {
+		panic(err)
+	}
+	sigBz, err := signerKey.Priv.Sign(bytesToSign)
+	if err != nil {
+		panic(err)
+	}
+	sig = signing.SignatureV2{PubKey: declared.Priv.PubKey(), Data: &signing.SingleSignatureData{SignMode: signMode, Signature: sigBz}, Sequence: seq}
+	if err := b.SetSignatures(sig); err != nil {
+		panic(err)
+	}
+	bz, err := txCfg.TxEncoder()(b.GetTx())
+	if err != nil {
+		panic(err)
+	}
+	return bz
+}
